@@ -40,6 +40,13 @@ def generate(tier, rng):
             mn = rng.choice([0, 0, -DEN, 5, g["xmin"], tmax // 2])
         if 0.1 < u < 0.3:
             mx = rng.choice([g["xmax"], g["xmax"] + DEN, g["xmax"] - 1, tmax // 2])
+        times = sorted(set(x for t in g["tiers"] for e in t["entries"] for x in e[:-1]))
+        if times and rng.random() < 0.08:
+            # an override that cuts through the data (a point or an interval of any tier, blank filling on or off): the save must refuse
+            if rng.random() < 0.5:
+                mn, mx = rng.choice(times) + rng.choice([1, 1, 7]), None
+            else:
+                mn, mx = None, rng.choice(times) - rng.choice([1, 1, 7])
         cases.append({"op": "prep", "g": g, "blanks": blanks, "mn": mn, "mx": mx, "thr": rng.choice(THRS), "scale": ["dyadic", K]})
     return cases
 
